@@ -265,22 +265,41 @@ Proof.
   assert (Hc : 0 <= cs < 65536) by (unfold cs; apply Z.mod_pos_bound; lia).
   rewrite <- app_assoc. rewrite firstn_app_exact, skipn_app_exact by exact L.
   rewrite firstn_app_exact by (apply length_cs2; exact Hc).
-  unfold bytes_to_int. rewrite unbe_int_to_bytes by lia. fold cs. rewrite Z.eqb_refl. reflexivity.
+  unfold bytes_to_int. rewrite unbe_int_to_bytes by lia. fold cs. rewrite Z.eqb_refl, L, Nat.eqb_refl. reflexivity.
 Qed.
 
 Theorem pkesk_open_accept_iff m a k :
   pkesk_open m = Ok (a, k) <->
-  exists r n, m = a :: r /\ sym_valid a = true /\ key_octets a = Some n /\ k = firstn n r /\
+  exists r n, m = a :: r /\ sym_valid a = true /\ key_octets a = Some n /\ k = firstn n r /\ length k = n /\
               sumz k mod 65536 = bytes_to_int (firstn 2 (skipn n r)).
 Proof.
   unfold pkesk_open. split.
   - destruct m as [|a' r]; [discriminate|].
     destruct (sym_valid a') eqn:V; cbn [negb]; [|discriminate].
     destruct (key_octets a') as [n|] eqn:K; [|discriminate].
+    destruct (length (firstn n r) =? n)%nat eqn:EL; cbn [negb orb]; [|discriminate].
     destruct (sumz (firstn n r) mod 65536 =? _) eqn:E; cbn [negb]; [|discriminate].
-    intros [= <- <-]. exists r, n. apply Z.eqb_eq in E. auto.
-  - intros [r [n [-> [V [K [-> E]]]]]]. rewrite V, K. cbn [negb]. rewrite E, Z.eqb_refl. reflexivity.
+    intros [= <- <-]. exists r, n. apply Z.eqb_eq in E. apply Nat.eqb_eq in EL. auto 10.
+  - intros [r [n [-> [V [K [-> [L E]]]]]]]. rewrite V, K. cbn [negb]. rewrite L, Nat.eqb_refl, E, Z.eqb_refl. reflexivity.
 Qed.
+
+(* every refusal of the tail of decrypt_sk is PGPDecryptionError (repair 774c7db) *)
+Theorem pkesk_open_reject_kinds m e : pkesk_open m = Raise e -> e = EDecrypt.
+Proof.
+  unfold pkesk_open. destruct m as [|a r]; [intros [= <-]; reflexivity|].
+  destruct (negb (sym_valid a)); [intros [= <-]; reflexivity|].
+  destruct (key_octets a) as [n|]; [|intros [= <-]; reflexivity].
+  destruct (_ || _); [intros [= <-]; reflexivity|discriminate].
+Qed.
+
+(* regression (before 774c7db): IndexError, ValueError and NotImplementedError escaped, and an m cut off inside the key
+   was accepted with the SHORT key when the two octets that happened to follow matched its sum; all are refused now *)
+Theorem pkesk_open_old_refuted :
+  pkesk_open_old [] = Raise EIndex /\ pkesk_open_old [5] = Raise EValue /\ pkesk_open_old [1] = Ok (1, []) /\
+  pkesk_open_old [0] = Raise ENotImpl /\ pkesk_open_old [9; 0; 0] = Ok (9, [0; 0]) /\
+  pkesk_open [] = Raise EDecrypt /\ pkesk_open [5] = Raise EDecrypt /\ pkesk_open [1] = Raise EDecrypt /\
+  pkesk_open [0] = Raise EDecrypt /\ pkesk_open [9; 0; 0] = Raise EDecrypt.
+Proof. vm_compute. repeat split. Qed.
 
 (* a caller-supplied session key of the wrong length is NOT recovered from m (AES-256 id, 16-octet key) *)
 Theorem pkesk_m_wrong_length_refuted :
@@ -291,25 +310,23 @@ Proof. exists 9, (repeat 1 16). split; [reflexivity|]. vm_compute. discriminate.
 Lemma pad_n_range (m : bytes) : 1 <= 8 - Z.of_nat (length m) mod 8 <= 8.
 Proof. pose proof (Z.mod_pos_bound (Z.of_nat (length m)) 8 ltac:(lia)). lia. Qed.
 
-Theorem pad_unpad m : pkcs5_unpad (pkcs5_pad m) = Some m.
+(* the unpadder takes off ANY PKCS#5 padding (n >= 1 octets of value n), whatever the total length *)
+Lemma unpad_padded m n : 1 <= n -> pkcs5_unpad (m ++ repeat n (Z.to_nat n)) = Some m.
 Proof.
-  unfold pkcs5_pad, pkcs5_unpad. pose proof (pad_n_range m) as R.
-  set (n := 8 - Z.of_nat (length m) mod 8) in *.
-  assert (Ln : length (repeat n (Z.to_nat n)) = Z.to_nat n) by apply repeat_length.
-  rewrite app_length, Ln.
-  assert (Hm : Z.of_nat (length m + Z.to_nat n) mod 8 = 0).
-  { rewrite Nat2Z.inj_add, Z2Nat.id by lia. unfold n.
-    replace (Z.of_nat (length m) + (8 - Z.of_nat (length m) mod 8)) with (Z.of_nat (length m) - Z.of_nat (length m) mod 8 + 1 * 8) by lia.
-    rewrite Z.mod_add by lia. rewrite Zminus_mod, Z.mod_mod by lia. rewrite Z.sub_diag. reflexivity. }
-  destruct ((length m + Z.to_nat n =? 0)%nat) eqn:E0; [lia|]. rewrite Hm. cbn [orb negb Z.eqb].
+  intros Hn. unfold pkcs5_unpad.
+  rewrite app_length, repeat_length.
   destruct (Z.to_nat n) as [|k] eqn:Ek; [lia|].
+  destruct ((length m + S k =? 0)%nat) eqn:E0; [lia|].
   rewrite last_app_repeat.
-  destruct (n <? 1) eqn:E1; [lia|]. destruct (n >? 8) eqn:E8; [lia|]. cbn [orb].
+  destruct (n <? 1) eqn:E1; [lia|]. destruct (Z.of_nat (length m + S k) <? n) eqn:E2; [lia|]. cbn [orb].
   rewrite Ek. rewrite lastn_app_exact by (rewrite repeat_length; reflexivity).
-  rewrite forallb_repeat.
+  rewrite eqb_bytes_refl.
   replace (length m + S k - S k)%nat with (length m) by lia.
   rewrite firstn_app_exact by reflexivity. reflexivity.
 Qed.
+
+Theorem pad_unpad m : pkcs5_unpad (pkcs5_pad m) = Some m.
+Proof. unfold pkcs5_pad. apply unpad_padded. pose proof (pad_n_range m). lia. Qed.
 
 Lemma pad_eq_rfc m : pkcs5_pad m = rfc_pad8 m /\ rfc_padded_ok (pkcs5_pad m) m.
 Proof.
@@ -320,10 +337,55 @@ Proof.
   rewrite Z.mod_add by lia. rewrite Zminus_mod, Z.mod_mod by lia. rewrite Z.sub_diag. reflexivity.
 Qed.
 
-(* whatever the unpadder accepts is a correctly padded string: no other path to Some *)
-Theorem unpad_accept_inv p m : pkcs5_unpad p = Some m -> rfc_padded_ok p m.
+(* whatever the unpadder accepts is a PKCS#5-padded string (n >= 1 octets of value n were taken off), and it accepts all
+   of them: no other path to Some *)
+Theorem unpad_accept_iff p m : pkcs5_unpad p = Some m <-> rfc_pkcs5_padded p m.
 Proof.
-  unfold pkcs5_unpad, rfc_padded_ok.
+  split.
+  - unfold pkcs5_unpad, rfc_pkcs5_padded.
+    destruct ((length p =? 0)%nat) eqn:E0; [discriminate|].
+    set (n := last p 0).
+    destruct (n <? 1) eqn:E1; [discriminate|]. destruct (Z.of_nat (length p) <? n) eqn:E9; [discriminate|]. cbn [orb].
+    destruct (eqb_bytes (lastn (Z.to_nat n) p) (repeat n (Z.to_nat n))) eqn:EF; [|discriminate].
+    intros [= <-]. exists n. split; [lia|].
+    apply eqb_bytes_eq in EF. rewrite <- EF. symmetry. apply firstn_lastn.
+  - intros [n [Hn ->]]. apply unpad_padded. exact Hn.
+Qed.
+
+Theorem unpad_accept_inv p m : pkcs5_unpad p = Some m -> rfc_pkcs5_padded p m.
+Proof. apply unpad_accept_iff. Qed.
+
+(* RFC 6637 section 8: a sender hiding the key size pads m (19 / 27 / 35 octets for AES-128 / 192 / 256) with 21 / 13 / 5
+   octets to 40; any m shorter than 40 octets padded that way is accepted and given back *)
+Theorem unpad_pad40 m : (length m < 40)%nat -> pkcs5_unpad (rfc_pad40 m) = Some m /\ length (rfc_pad40 m) = 40%nat.
+Proof.
+  intros H. unfold rfc_pad40. split; [apply unpad_padded; lia|].
+  rewrite app_length, repeat_length. lia.
+Qed.
+Lemma pad_to_40 m : pkcs5_pad_to 40 m = rfc_pad40 m.
+Proof. reflexivity. Qed.
+Lemma unpad_pad_to total m : Z.of_nat (length m) < total -> pkcs5_unpad (pkcs5_pad_to total m) = Some m.
+Proof. intros H. unfold pkcs5_pad_to. apply unpad_padded. lia. Qed.
+Lemma length_pkesk_m alg key : 0 <= alg < 256 -> length (pkesk_m alg key) = (length key + 3)%nat.
+Proof.
+  intros H. unfold pkesk_m. rewrite int_to_bytes_octet by exact H. rewrite !app_length.
+  rewrite length_cs2 by (apply Z.mod_pos_bound; lia). cbn [length]. lia.
+Qed.
+Theorem unpad_pad40_rfc_amounts m :
+  (length m = 19%nat -> rfc_pad40 m = m ++ repeat 21 21) /\ (length m = 27%nat -> rfc_pad40 m = m ++ repeat 13 13) /\
+  (length m = 35%nat -> rfc_pad40 m = m ++ repeat 5 5).
+Proof. unfold rfc_pad40. repeat split; intros ->; reflexivity. Qed.
+
+(* regression (before 830c52d): the PKCS7(64) unpadder refused pad values above 8, i.e. the 40-octet forms of AES-128 and
+   AES-192 session keys; what it did accept was padded to the 8-octet granularity *)
+Theorem unpad_old_pad40_refuted :
+  pkcs5_unpad_old (rfc_pad40 (repeat 7 19)) = None /\ pkcs5_unpad_old (rfc_pad40 (repeat 8 27)) = None /\
+  pkcs5_unpad (rfc_pad40 (repeat 7 19)) = Some (repeat 7 19) /\ pkcs5_unpad (rfc_pad40 (repeat 8 27)) = Some (repeat 8 27).
+Proof. vm_compute. repeat split. Qed.
+
+Theorem unpad_old_accept_inv p m : pkcs5_unpad_old p = Some m -> rfc_padded_ok p m.
+Proof.
+  unfold pkcs5_unpad_old, rfc_padded_ok.
   destruct ((length p =? 0)%nat) eqn:E0; [discriminate|].
   destruct (Z.of_nat (length p) mod 8 =? 0) eqn:E8; cbn [orb negb]; [|discriminate].
   set (n := last p 0).
